@@ -4,6 +4,7 @@ use crate::gen;
 use crate::props::c02;
 use crate::refmodel::*;
 use engeom::common::DistMode;
+use engeom::geom2::Line2 as _;
 use engeom::geom2::Segment2;
 use engeom::geom3::Plane3;
 use engeom::metrology::{Distance2, Distance3, Measurement};
@@ -207,6 +208,22 @@ fn judge_mesh(case: &Case, l: &mut Local) {
     l.bucket("mesh x iso");
     let moved = mt.faces() == mesh.faces() && mesh.vertices().iter().zip(mt.vertices().iter()).all(|(a, b)| d3(&(iso * a), b) <= tol);
     l.check("mesh: transform moves the vertices and keeps the faces", "", moved, mk, String::new);
+    // normals of faces and vertices only rotate; the bulk point helpers agree with moving point by point
+    {
+        let rot = |n: &Vector3| iso.rotation * n;
+        let fn_ok = match (mesh.get_face_normals(), mt.get_face_normals()) {
+            (Ok(a), Ok(b)) => a.len() == b.len() && a.iter().zip(b.iter()).all(|(x, y)| (rot(&x.into_inner()) - y.into_inner()).norm() <= 1e-9),
+            (Err(_), Err(_)) => true,
+            _ => false,
+        };
+        let (va, vb) = (mesh.get_vertex_normals(), mt.get_vertex_normals());
+        let vn_ok = va.len() == vb.len() && va.iter().zip(vb.iter()).all(|(x, y)| (rot(x) - y).norm() <= 1e-9 || (x.norm() < 1e-9 && y.norm() < 1e-9) || (!x.norm().is_finite() && !y.norm().is_finite()));
+        l.check("mesh: face and vertex normals only rotate", "", fn_ok && vn_ok, mk, String::new);
+        let bulk = engeom::common::points::transform_points(mesh.vertices(), &iso);
+        let mean_a = engeom::common::points::mean_point(mesh.vertices());
+        let mean_b = engeom::common::points::mean_point(&bulk);
+        l.check("points: bulk transformation and the mean commute with the motion", "", bulk.iter().zip(mesh.vertices().iter()).all(|(b, a)| d3(b, &(iso * a)) <= tol) && d3(&(iso * mean_a), &mean_b) <= tol, mk, String::new);
+    }
     let normals: Vec<Option<Vector3>> = f.iter().map(|t| tri_normal(&v[t[0] as usize], &v[t[1] as usize], &v[t[2] as usize])).collect();
     let mut qs = queries3();
     qs.push(Point3::new(2.2, -0.5, -0.3));
@@ -363,6 +380,34 @@ fn judge_sp2(case: &Case, l: &mut Local) {
     if let Ok(seg) = Segment2::try_new(a, a + nv) {
         let st = seg.transform_by(&iso);
         l.check("segment: end points move with the motion", "", d2(&st.a, &(iso * seg.a)) <= tol && d2(&st.b, &(iso * seg.b)) <= tol, mk, String::new);
+        // derived segments and line parameters commute too
+        let (o1, o2) = (seg.offsetted(0.75).transform_by(&iso), st.offsetted(0.75));
+        let (r1, r2) = (seg.reversed().transform_by(&iso), st.reversed());
+        l.check("segment: offsetting and reversing commute with the motion", "", d2(&o1.a, &o2.a) <= tol && d2(&o1.b, &o2.b) <= tol && d2(&r1.a, &r2.a) <= tol && d2(&r1.b, &r2.b) <= tol, mk, || format!("{:?} vs {:?}", o1.a, o2.a));
+        for q in queries2() {
+            let qt = iso * q;
+            let (t0, t1) = (seg.projected_parameter(&q), st.projected_parameter(&qt));
+            let on_margin = (q - seg.a).dot(&(q - seg.b)).abs() <= 1e-9 * (1.0 + iso.translation.vector.norm());
+            let ok = (t0 - t1).abs() <= 1e-9 * (1.0 + iso.translation.vector.norm()) && d2(&(iso * seg.projected_point(&q)), &st.projected_point(&qt)) <= tol && (on_margin || seg.is_on(&q) == st.is_on(&qt));
+            l.check("segment: projection parameter, projected point and the on-segment test are frame independent", "", ok, mk, || format!("q {:?}: t {} vs {}", q, t0, t1));
+        }
+        // intersection of two lines: parameters are frame independent
+        let other = Segment2::try_new(Point2::new(1.0, -1.0), Point2::new(-0.5, 2.5)).unwrap();
+        let ot = other.transform_by(&iso);
+        let i0 = engeom::geom2::intersection_param(&seg.a, &(seg.b - seg.a), &other.a, &(other.b - other.a));
+        let i1 = engeom::geom2::intersection_param(&st.a, &(st.b - st.a), &ot.a, &(ot.b - ot.a));
+        let ok = match (i0, i1) {
+            (Some(x), Some(y)) => (x.0 - y.0).abs() <= 1e-7 * (1.0 + x.0.abs()) * (1.0 + iso.translation.vector.norm()) && (x.1 - y.1).abs() <= 1e-7 * (1.0 + x.1.abs()) * (1.0 + iso.translation.vector.norm()),
+            (None, None) => true,
+            _ => false,
+        };
+        l.check("line-line intersection parameters are frame independent", "", ok, mk, || format!("{:?} vs {:?}", i0, i1));
+    }
+    // operations deriving a surface point from another commute with the motion
+    {
+        let pairs = [(sp.shift_orthogonal(0.6).transformed(&iso), s1.shift_orthogonal(0.6)), (sp.rot_normal(0.7).transformed(&iso), s1.rot_normal(0.7)), (sp.rot_normal_90(engeom::AngleDir::Cw).transformed(&iso), s1.rot_normal_90(engeom::AngleDir::Cw)), (sp.reversed().transformed(&iso), s1.reversed())];
+        let ok = pairs.iter().all(|(x, y)| d2(&x.point, &y.point) <= tol && (x.normal.into_inner() - y.normal.into_inner()).norm() <= 1e-9);
+        l.check("sp2: shifting, turning and reversing commute with the motion", "", ok, mk, String::new);
     }
     let back = s1.transformed(&iso.inverse());
     l.check("sp2: inverse motion restores", "", d2(&back.point, &sp.point) <= tol && (back.normal.into_inner() - sp.normal.into_inner()).norm() <= 1e-9, mk, String::new);
